@@ -84,6 +84,8 @@ type Step struct {
 	Token     string            `json:"token,omitempty"` // cred.get: env | wrong | empty | lit:<x>
 	Creds     []string          `json:"creds,omitempty"` // restore: key, secret, session
 	Flag      string            `json:"flag,omitempty"`
+	SlowBody  string            `json:"slowBody,omitempty"` // latch: the request body is uploaded in two parts, the second after this latch
+	Quiet     bool              `json:"quiet,omitempty"`    // await: a timeout is expected and not worth a note
 }
 
 type HookPlan struct {
